@@ -121,6 +121,28 @@ CHECKS["C16"] = dict(
 
 NOT_APPLICABLE = {}
 
+ROUND6 = {
+    "C01": "A second fetch over a complete tree whose last recorded chunk is damaged must not end in success over a different tree; trees with unlisted entries (dangling link, named pipe, link to a directory) in front of later-sorting siblings; one scanned manifest served to two receivers in a row.",
+    "C02": "After a run that a damaged chunk made fail, the ordinary retry (resume on) must not report success over a different tree; an output path that is a link to /dev/null must not end in success.",
+    "C03": "One directory spelled '.', './', 'sub/..', '..', '../proj' from the matching working directory goes through the real ScanPaths and path resolver; transfers whose sender yields after every control-stream write must complete.",
+    "C05": "Metadata that does not load (cut short, flipped bits, garbage) is ignored: the transfer must still succeed; post-mortem of the metadata after transfers with chunks of several MiB.",
+    "C06": "Leftover metadata in the fallback location below the root directory; only the first chunk recorded and torn; the receiver's hash of the highest recorded chunk taking longer than its own timeout (hook recv.resume.hash): the chunk must still be repaired.",
+    "C07": "Paths that climb out only behind 64 harmless components (Paths.tla shape 'deep'); hostile ids on empty files; a regular file of the user in the place of the metadata directory.",
+    "C09": "ConnRace.tla covers the receiver's relay listener (ExtrasMeet, switch ExtrasOnDirect refuted); every direct candidate unreachable and listed twice, with and without a reachable relay candidate.",
+    "C10": "The real signaling client (internal/wsclient) sends a batch and closes at once: the reading recipient gets every envelope Send accepted, in order.",
+    "C11": "Expiry with a stuck peer among eight: every other peer must be disconnected whatever the stuck one's position in the close loop.",
+    "C12": "DispatchLoop.tla covers receivers leaving while their transfer runs, their transfer function returning later and late accepts (NoDeadStart, switch TailUsesOwnCtx refuted), replayed on the real loop; the replay uses the real status logger as state-change callback and bounds every handler call.",
+    "C13": "One scanned manifest served to two receivers in a row must be unchanged afterwards.",
+    "C14": "A receiver that joined under the host's peer id must not keep the code alive after the host left.",
+    "C15": "Manifest entries without id under a resume negotiation; the multi-connection dumb receive with every connection ending early; receivers run with resume on for every other case.",
+    "C16": "Twelve receivers joining at once each get the TURN user and secret minted for their own peer id.",
+    "C17": "Resume reports that arrive after the grace period with a slow statistics callback: the file must not be ended before the chunk that failed verification went out again.",
+    "C18": "Names with control characters, DEL, a tag character, an emoji and quotes; one manifest document of about 25 MiB.",
+    "C19": "The repair of a short last chunk must be framed with that chunk's own length (a full-size request reads beyond the end of the file).",
+}
+for _k, _t in ROUND6.items():
+    CHECKS[_k]["text"] = CHECKS[_k]["text"] + " " + _t
+
 HOOK_COMMITS = ["6b59734", "6335744", "5382be1", "5e921af", "851c4ba", "5063793", "42c67f4", "011cabf", "c6a49db"]
 
 
